@@ -311,6 +311,10 @@ func lifecycleMain() {
 	last := bgGoroutines()
 	report := func(what string, want int, errs ...error) {
 		now := bgGoroutines()
+		// a goroutine that was just started may not have been scheduled yet on a loaded machine: wait for it
+		for i := 0; i < 100 && now-last < want; i++ {
+			now = bgGoroutines()
+		}
 		got := now - last
 		last = now
 		ok := got == want || (want == 0 && got < 0)
